@@ -586,6 +586,8 @@ func irInlineAsm(typ types.Type, old *ast.InlineAsm) *ir.InlineAsm {
 	_, v.AlignStack = old.AlignStackTok()
 	// (optional) Intel dialect.
 	_, v.IntelDialect = old.IntelDialect()
+	// (optional) Unwind.
+	_, v.Unwind = old.Unwind()
 	return v
 }
 
